@@ -231,7 +231,7 @@ def rule_k7(ck, prog, S, rule="C18-K7"):
             ok = {v for v in ok if ops[a["op"]](v, C.const_of(r)) == bool(pol)}
         elif r.get("path") == idx and C.const_of(l) is not None:
             ok = {v for v in ok if ops[a["op"]](C.const_of(l), v) == bool(pol)}
-    if ok == {1}:
+    if ok == ({1} & set(range(parts))):
         ck.holds(rule, st, K.loc(f, semis[0]), "separator written for part index 1 only (of %d parts)" % parts)
     else:
         ck.violated(rule, st, K.loc(f, semis[0]),
